@@ -27,7 +27,6 @@ called by get().  Behaviours that extend a failed behaviour are skipped (the sta
 """
 import copy
 import json
-import random
 import time
 import warnings
 from concurrent.futures import ThreadPoolExecutor
@@ -82,6 +81,7 @@ RULE = ("containers: every operation sequence of length <= L (set / get / del / 
 
 SENT = object()
 _SINK = None
+_SEED = 0
 
 
 # --------------------------------------------------------------------------------------------
@@ -241,7 +241,7 @@ def ev_key(e):
 # --------------------------------------------------------------------------------------------
 # TLC
 # --------------------------------------------------------------------------------------------
-def tlc_container(ctx, module, cfg_text, cfg, tag, what):
+def tlc_container(ctx, module, cfg_text, cfg, tag):
     res = run_tlc(ctx.workdir / f"{module}_{tag}", module, cfg_text, files={"cfg.json": cfg},
                   env={"CFG_FILE": "cfg.json"}, heap="3g")
     if res.violated:
@@ -251,10 +251,10 @@ def tlc_container(ctx, module, cfg_text, cfg, tag, what):
     recs = [r for r in res.records if "universe" not in r]
     if len(meta) != 1 or len(recs) != res.distinct:
         raise TLCFailure(f"{module}: {res.distinct} distinct states, {len(recs)} state records, {len(meta)} universe records")
-    return res, Universe(meta[0]), recs, what
+    return res, Universe(meta[0]), recs
 
 
-def tlc_dict(ctx, track, maxlen, size, dirs, tag, what):
+def tlc_dict(ctx, track, maxlen, size, dirs, tag):
     res = run_tlc(ctx.workdir / f"dict_{tag}", "X03_DictJoin", DICT_CFG,
                   env={"TRACK": track, "MAXLEN": str(maxlen), "SIZE": size, "DIRS": dirs}, heap="3g")
     if res.violated:
@@ -265,7 +265,7 @@ def tlc_dict(ctx, track, maxlen, size, dirs, tag, what):
     silent = {"join": 0, "chain": 1, "pairs": {"small": 144, "large": 400}[size]}[track]
     if len(recs) != res.distinct - silent:
         raise TLCFailure(f"X03_DictJoin/{track}: {res.distinct} distinct states but {len(recs)} state records")
-    return res, recs, what
+    return res, recs
 
 
 # --------------------------------------------------------------------------------------------
@@ -602,12 +602,13 @@ def diverged(fails):
 
 
 def pick(variants, thin, n, length, maxlen):
-    """thin (quick tier): behaviours of maximal length are replayed under one of the representations, alternating."""
-    return (variants[n % len(variants)],) if thin and length == maxlen and maxlen > 1 else variants
+    """thin (quick tier): behaviours of maximal length are replayed under one of the representations, alternating
+    (which one starts depends on the seed)."""
+    return (variants[(n + _SEED) % len(variants)],) if thin and length == maxlen and maxlen > 1 else variants
 
 
 def run_map(ctx, cfg, tag, variants=(0, 1), mut=None, drop=None, only=None, tlc=None, thin=False, real_cfg=None):
-    res, uni, recs, what = tlc if tlc is not None else tlc_container(ctx, "X03_AssignMap", MAP_CFG, cfg, tag, "")
+    res, uni, recs = tlc if tlc is not None else tlc_container(ctx, "X03_AssignMap", MAP_CFG, cfg, tag)
     ctx.add_tlc(res, f"AssignmentMap machine {tag}: all operation sequences of length <= {cfg['maxlen']} over keys "
                      f"{cfg['keys']} x values {cfg['vals']} x modes {cfg['modes']} x initial maps {cfg['inits']}")
     env = MapEnv(uni, cfg, real_cfg)
@@ -624,11 +625,13 @@ def run_map(ctx, cfg, tag, variants=(0, 1), mut=None, drop=None, only=None, tlc=
         prev_items = []
         for i in range(len(rec["hist"])):
             prev_items.append([tuple(p) for p in by_key[(key[0], key[1], key[2][:i])]["items"]])
+        ran = False
         for variant in pick(variants, thin, n, len(rec["hist"]), cfg["maxlen"]):
             if only is None and (key[0], key[1], key[2][:-1], variant) in failed and rec["hist"]:
                 failed.add((key[0], key[1], key[2], variant))
                 ctx.skip("map behaviour extends a behaviour that already failed (state diverged)")
                 continue
+            ran = True
             fails = replay_map(ctx, env, rec, variant, prev_items, mut=mut, drop=drop)
             case = {"part": "map", "cfg": cfg, "key": [key[0], key[1], [list(x) for x in key[2]]], "variant": variant}
             if diverged(fails):
@@ -638,7 +641,7 @@ def run_map(ctx, cfg, tag, variants=(0, 1), mut=None, drop=None, only=None, tlc=
             ctx.count("map_behaviours")
         changing = [e for e in rec["hist"] if e["op"] in ("set", "del", "upd", "mrg")
                     and (e["shape"].startswith("unhashable") or e["shape"] == "argument-with-unhashable-keys")]
-        if len(rec["hist"]) >= 2 and changing:
+        if ran and len(rec["hist"]) >= 2 and changing:
             ctx.nontrivial("map" + repr(key))
         if len(rec["hist"]) == cfg["maxlen"] and n % 997 == 0:
             ctx.sample({"part": "map", "mode": rec["mode"], "init": rec["init"],
@@ -866,7 +869,7 @@ def py_set_reference(env, rec):
 
 
 def run_set(ctx, cfg, tag, variants=(0, 1), mut=None, drop=None, only=None, tlc=None, thin=False):
-    res, uni, recs, what = tlc if tlc is not None else tlc_container(ctx, "X03_AssignSet", SET_CFG, cfg, tag, "")
+    res, uni, recs = tlc if tlc is not None else tlc_container(ctx, "X03_AssignSet", SET_CFG, cfg, tag)
     ctx.add_tlc(res, f"AssignmentSet machine {tag}: all operation sequences of length <= {cfg['maxlen']} over items "
                      f"{cfg['keys']}, binary operations {cfg['binops']} with family sets {cfg['bin']}, pop={cfg['pop']}, "
                      f"initial sets {cfg['inits']}")
@@ -884,11 +887,13 @@ def run_set(ctx, cfg, tag, variants=(0, 1), mut=None, drop=None, only=None, tlc=
     for n, (init, script) in enumerate(sorted(scripts, key=lambda x: (len(x[1]), x))):
         if only is not None and (init, script) != only:
             continue
+        ran = False
         for variant in pick(variants, thin, n, len(script), cfg["maxlen"]):
             if only is None and script and (init, script[:-1], variant) in failed:
                 failed.add((init, script, variant))
                 ctx.skip("set behaviour extends a behaviour that already failed (state diverged)")
                 continue
+            ran = True
             fails, rec = replay_set(ctx, env, by_key, init, script, variant, mut=mut, drop=drop)
             case = {"part": "set", "cfg": cfg, "key": [init, [list(x) for x in script]], "variant": variant}
             if diverged(fails):
@@ -900,7 +905,7 @@ def run_set(ctx, cfg, tag, variants=(0, 1), mut=None, drop=None, only=None, tlc=
             ctx.count("set_behaviours")
         rep = scripts[(init, script)][0]
         changing = [e for e in rep["hist"] if e["op"] != "has" and "unhashable" in e["shape"]]
-        if len(script) >= 2 and changing:
+        if ran and len(script) >= 2 and changing:
             ctx.nontrivial("set" + repr((init, script)))
         if len(script) == cfg["maxlen"] and n % 499 == 0:
             ctx.sample({"part": "set", "init": [show(uni.entries[k - 1]) for k in cfg["others"][init - 1]] if init else [],
@@ -1101,7 +1106,7 @@ def dict_key(rec):
 
 
 def run_dict(ctx, track, maxlen, size, dirs, tag, variants=(0, 1), mut=None, drop=None, only=None, tlc=None, thin=False):
-    res, recs, what = tlc if tlc is not None else tlc_dict(ctx, track, maxlen, size, dirs, tag, "")
+    res, recs = tlc if tlc is not None else tlc_dict(ctx, track, maxlen, size, dirs, tag)
     ctx.add_tlc(res, f"dictionary helpers, track {track} ({size}, length <= {maxlen}, directions {dirs})")
     recs.sort(key=lambda r: len(r["hist"]))
     failed = set()
@@ -1113,11 +1118,13 @@ def run_dict(ctx, track, maxlen, size, dirs, tag, variants=(0, 1), mut=None, dro
             py_dict_reference(rec)
             ctx.count("oracle_crosschecks")
         prefix = dict_key(dict(rec, hist=rec["hist"][:-1])) if rec["hist"] else None
+        ran = False
         for variant in pick(variants, thin, n, len(rec["hist"]), maxlen):
             if only is None and track != "pairs" and prefix is not None and (prefix, variant) in failed:
                 failed.add((key, variant))
                 ctx.skip("dictionary behaviour extends a behaviour that already failed")
                 continue
+            ran = True
             fails = (replay_join if track == "join" else replay_merge)(ctx, rec, variant, mut=mut, drop=drop)
             case = {"part": "dict", "track": track, "maxlen": maxlen, "size": size, "dirs": dirs, "key": key, "variant": variant}
             if fails:
@@ -1125,6 +1132,8 @@ def run_dict(ctx, track, maxlen, size, dirs, tag, variants=(0, 1), mut=None, dro
             if report(ctx, track, fails, case):
                 ctx.validated += 1
             ctx.count(f"{track}_behaviours")
+        if not ran:
+            continue
         if track == "join":
             if len([R for R in rec["rels"] if R]) >= 2 and "conflict" in rec["shape"]:
                 ctx.nontrivial("join" + key)
@@ -1254,18 +1263,19 @@ ASSUMPTIONS = [
 def run(ctx):
     ctx.rule = RULE
     ctx.assumptions = ASSUMPTIONS
-    random.seed(ctx.seed)
+    global _SEED
+    _SEED = ctx.seed
     maps, sets, dicts = plans(ctx.tier)
     with warnings.catch_warnings():
         warnings.simplefilter("ignore")
         jobs = []
         for tag, cfg in maps:
-            jobs.append(("map", tag, cfg, _POOL.submit(tlc_container, ctx, "X03_AssignMap", MAP_CFG, cfg, tag, "")))
+            jobs.append(("map", tag, cfg, _POOL.submit(tlc_container, ctx, "X03_AssignMap", MAP_CFG, cfg, tag)))
         for tag, cfg in sets:
-            jobs.append(("set", tag, cfg, _POOL.submit(tlc_container, ctx, "X03_AssignSet", SET_CFG, cfg, tag, "")))
+            jobs.append(("set", tag, cfg, _POOL.submit(tlc_container, ctx, "X03_AssignSet", SET_CFG, cfg, tag)))
         for i, (track, maxlen, size, dirs) in enumerate(dicts):
             jobs.append(("dict", f"{track}{i}", (track, maxlen, size, dirs),
-                         _POOL.submit(tlc_dict, ctx, track, maxlen, size, dirs, f"{track}{i}", "")))
+                         _POOL.submit(tlc_dict, ctx, track, maxlen, size, dirs, f"{track}{i}")))
         timing = ctx.extra.setdefault("replay_cpu_s", {})
         for part, tag, cfg, fut in jobs:
             tlc = fut.result()
